@@ -408,6 +408,8 @@ func cmdStruct(args []string) {
 			hx.Must(json.Unmarshal(s.Prog, &q))
 			if q["x"] == "underlying-fallible-top" {
 				fmt.Fprintf(&src, "\ntype InID%d string\ntype OutID%d int\n\n// goverter:converter\n// goverter:useUnderlyingTypeMethods\n// goverter:extend AtoiU\n%stype C%d interface {\n\tUpdate(source InID%d) (OutID%d, error)\n}\n", i, i, head(i), i, i, i)
+			} else if q["x"] == "default-unexported" {
+				fmt.Fprintf(&src, "\nfunc newDT%d() *DT { return &DT{} }\n\n// goverter:converter\n%stype C%d interface {\n\t// goverter:default newDT%d\n\tUpdate(source *DS) *DT\n}\n", i, head(i), i, i)
 			} else if q["x"] == "ignoremissing-map-value" {
 				fmt.Fprintf(&src, "\ntype MS%d struct{ M map[string]struct{ A int } }\ntype MT%d struct{ M map[string]struct{ B int } }\n\n// goverter:converter\n// goverter:ignoreMissing\n%stype C%d interface {\n\tUpdate(source MS%d) MT%d\n}\n", i, i, head(i), i, i, i)
 			} else if q["x"] == "pointer-source-fault" {
